@@ -77,6 +77,7 @@ func runC20(c *Ctx) {
 	checkNeutrinoProducerDiscipline(c, "C20-R5", "d")
 	checkOldBtcdTableBehindVersionGate(c, "C20-R3")
 	checkSortInputKeyedByTxid(c, "C20-R4")
+	checkRecordSerialisationKeepsWitness(c, "C20-R4")
 	runC20Rest(c)
 }
 
